@@ -49,7 +49,7 @@ def build_leaf(d):
 
 def build_src(d):
     if "coll" in d:
-        return magpy.Collection(*[build_leaf(x) for x in d["coll"]])
+        return magpy.Collection(*[build_src(x) for x in d["coll"]])     # nested collections allowed
     return build_leaf(d)
 
 
@@ -61,11 +61,13 @@ def build_sensor(d):
 
 
 def leaves_of(d):
-    return d["coll"] if "coll" in d else [d]
+    if "coll" not in d:
+        return [d]
+    return [y for x in d["coll"] for y in leaves_of(x)]     # depth-first, as format_obj_input flattens
 
 
 def cls_of(d):
-    return "Collection(" + ",".join(sorted({x["cls"] for x in d["coll"]})) + ")" if "coll" in d else d["cls"]
+    return "Collection(" + ",".join(sorted({x["cls"] for x in leaves_of(d)})) + ")" if "coll" in d else d["cls"]
 
 
 def clip(seq, m):
@@ -78,7 +80,7 @@ def freeze_leaf(d, m):
 
 def freeze_src(d, m):
     if "coll" in d:
-        return {"coll": [freeze_leaf(x, m) for x in d["coll"]]}
+        return {"coll": [freeze_leaf(x, m) for x in leaves_of(d)]}
     return freeze_leaf(d, m)
 
 
@@ -110,10 +112,10 @@ def run_batch(case, field, **kw):
     return np.asarray(getF(field, srcs, sens, **kw), dtype=float)
 
 
-def run_single(case, field, l, m, k, p):
+def run_single(case, field, l, m, k, p, **kw):
     src = build_src(freeze_src(case["sources"][l], m))
     sen = build_sensor(freeze_sensor(case["sensors"][k], m, p))
-    return np.asarray(getF(field, src, sen, squeeze=True), dtype=float).reshape(3)
+    return np.asarray(getF(field, src, sen, squeeze=True, **kw), dtype=float).reshape(3)
 
 
 def same_vec(a, b, tol):
@@ -149,7 +151,8 @@ def rounding_sensitivity(case, field, l, m, k, p, one):
     src = build_src(freeze_src(case["sources"][l], m))
     sd = freeze_sensor(case["sensors"][k], m, p)
     base = np.array(sd["pos"][0], dtype=float)
-    mag = max(1.0, float(np.max(np.abs(base))), float(np.max(np.abs(np.array(sd["pixel"], dtype=float)))))
+    spos = max(float(np.max(np.abs(np.array(x["pos"], dtype=float)))) for x in leaves_of(freeze_src(case["sources"][l], m)))
+    mag = max(1e-300, spos, float(np.max(np.abs(base))), float(np.max(np.abs(np.array(sd["pixel"], dtype=float)))))
     dev = 0.0
     signs = [(1, 1, 1), (-1, 1, 1), (1, -1, 1), (1, 1, -1), (-1, -1, 1), (1, -1, -1), (-1, 1, -1), (-1, -1, -1)]
     for sg in signs:
@@ -185,12 +188,14 @@ def own_part_scale(case, field, l, m, k, p):
     return out
 
 
-def element_mismatches(case, field, limit=1, only=None):
+def element_mismatches(case, field, limit=1, only=None, B=None, cache=None, kw=None):
     """[(l, m, k, p, batch, single)] where the vectorised result differs from the isolated call.
     The tolerance of an element is relative to the isolated value of THAT element (source l alone at
     that pixel); only when this fails, a floor from source l's own conditioning is added: its own
     largest part contribution and its measured sensitivity to a few-ulp move of the observer."""
-    B = run_batch(case, field, squeeze=False)
+    kw = kw or {}
+    if B is None:
+        B = run_batch(case, field, squeeze=False, **kw)
     L, M, K = B.shape[:3]
     B = B.reshape(L, M, K, -1, 3)
     out = []
@@ -200,7 +205,12 @@ def element_mismatches(case, field, limit=1, only=None):
                 for p in range(B.shape[3]):
                     if only is not None and (l, m, k, p) != only:
                         continue
-                    one = run_single(case, field, l, m, k, p)
+                    if cache is not None and (l, m, k, p) in cache:
+                        one = cache[(l, m, k, p)]
+                    else:
+                        one = run_single(case, field, l, m, k, p, **kw)
+                        if cache is not None:
+                            cache[(l, m, k, p)] = one
                     fin = one[np.isfinite(one)]
                     tol = RTOL * (float(np.max(np.abs(fin))) if fin.size else 0.0) + 1e-300
                     if same_vec(B[l, m, k, p], one, tol):
@@ -218,6 +228,119 @@ def element_mismatches(case, field, limit=1, only=None):
 
 def n_elements(case):
     return len(case["sources"]) * path_len(case) * sum(len(pix_flat(s)) for s in case["sensors"])
+
+
+# ------------------------------------------------------------------ other public entry points and output modes
+def _objs(case):
+    srcs = [build_src(s) for s in case["sources"]]
+    for i, s in enumerate(case["sources"]):
+        if "same_as" in s:
+            srcs[i] = srcs[s["same_as"]]
+    return srcs, [build_sensor(s) for s in case["sensors"]]
+
+
+def entry_variants(case, field, which):
+    """(name, array shaped like the top-level squeeze=False result) obtained through other public entry
+    points / observer formats / output modes; each must satisfy the same element property"""
+    get = "get" + field
+    L, M = len(case["sources"]), path_len(case)
+    if which == "sensor-method":            # Sensor.getX(*sources) for every sensor
+        srcs, sens = _objs(case)
+        parts = [np.asarray(getattr(sn, get)(*srcs, squeeze=False), dtype=float) for sn in sens]
+        Mk = [q.shape[1] for q in parts]
+        parts = [q[:, [min(m, mk - 1) for m in range(M)]] for q, mk in zip(parts, Mk)]      # shorter path: last pose
+        shapes = {q.shape[3:] for q in parts}
+        if len(shapes) != 1:
+            return None
+        return np.concatenate(parts, axis=2)
+    if which == "source-method":            # source.getX(*sensors) / collection.getX(*sensors) for every source
+        srcs, sens = _objs(case)
+        parts = []
+        for sr in srcs:
+            q = np.asarray(getattr(sr, get)(*sens, squeeze=False), dtype=float)
+            parts.append(q[:, [min(m, q.shape[1] - 1) for m in range(M)]])
+        return np.concatenate(parts, axis=0)
+    if which == "observer-collection":      # observers given as (nested) Collection(s) of sensors
+        srcs, sens = _objs(case)
+        if len(sens) < 2:
+            obs = magpy.Collection(sens[0])
+        else:
+            obs = [magpy.Collection(sens[0]), magpy.Collection(magpy.Collection(*sens[1:]))]
+        return np.asarray(getF(field, srcs, obs, squeeze=False), dtype=float)
+    if which == "dataframe":
+        srcs, sens = _objs(case)
+        ref = np.asarray(getF(field, srcs, sens, squeeze=False), dtype=float)
+        df = getF(field, srcs, sens, squeeze=False, output="dataframe")
+        return df[[field + c for c in "xyz"]].to_numpy(dtype=float).reshape(ref.shape)
+    if which == "squeeze":
+        srcs, sens = _objs(case)
+        ref = np.asarray(getF(field, srcs, sens, squeeze=False), dtype=float)
+        return np.asarray(getF(field, srcs, sens, squeeze=True), dtype=float).reshape(ref.shape)
+    if which == "positions":                # static unrotated right-handed sensors as bare position arrays
+        srcs, sens = _objs(case)
+        if not all(len(sd["pos"]) == 1 and not sd.get("left") and np.allclose(sd["rot"], 0) for sd in case["sensors"]):
+            return None
+        obs = [(np.array(pix_flat(sd), dtype=float).reshape(np.shape(sd["pixel"]) if sd["pixel"] is not None else (3,))
+                + np.array(sd["pos"][0], dtype=float)) for sd in case["sensors"]]
+        obs = [o if i % 2 else o.tolist() for i, o in enumerate(obs)]            # ndarray and list inputs
+        out = np.asarray(getF(field, srcs, obs if len(obs) > 1 else obs[0], squeeze=False), dtype=float)
+        # equal-shape position arrays in one list are ONE pixel array (sensor axis of length 1): same order
+        return out.reshape(L, out.shape[1], len(obs), -1, 3)
+    raise ValueError(which)
+
+
+ENTRY_KINDS = ["sensor-method", "source-method", "observer-collection", "dataframe", "squeeze", "positions"]
+
+
+# ------------------------------------------------------------------ histories: call -> public mutation -> call
+def history_mismatch(rng, case, field):
+    """None or text: after public mutations of the objects (excitation, move, rotate, pixel, handedness,
+    position, an intermediate call with a longer-path object, a rejected call) the next call must equal the
+    call on freshly built twins of the mutated scene"""
+    srcs, sens = _objs(case)
+    getF(field, srcs, sens, squeeze=False)
+    new = {"sources": [dict(x) for x in case["sources"]], "sensors": [dict(x) for x in case["sensors"]]}
+    # intermediate call that tiles every path up, and a rejected call
+    longer = magpy.Sensor(position=[(i, 0, 0) for i in range(path_len(case) + 2)], pixel=case["sensors"][0]["pixel"])
+    getF(field, srcs, sens + [longer], squeeze=False)
+    try:
+        getF(field, srcs, sens, squeeze=False, pixel_agg="no_such_reduction")
+    except Exception:   # pylint: disable=broad-except
+        pass
+    for i, d in enumerate(case["sources"]):
+        if "coll" in d or "same_as" in d or any("same_as" in x and x["same_as"] == i for x in case["sources"]):
+            continue
+        a = dict(d["args"])
+        if "pol" in a:
+            a["pol"] = g_pol(rng)
+            srcs[i].polarization = a["pol"]
+        elif "cur" in a:
+            a["cur"] = round(rng.uniform(-2, 2), 3)
+            srcs[i].current = a["cur"]
+        else:
+            a["mom"] = g_pol(rng)
+            srcs[i].moment = a["mom"]
+        dsp = rvec(rng)
+        srcs[i].move(dsp)
+        new["sources"][i] = dict(d, args=a, pos=(np.array(d["pos"], dtype=float) + np.array(dsp)).tolist())
+    for k, d in enumerate(case["sensors"]):
+        n = len(pix_flat(d))
+        pix = np.array([rvec(rng, -2, 2) for _ in range(n)]).reshape(np.shape(d["pixel"]) if d["pixel"] is not None else (3,)).tolist()
+        sens[k].pixel = pix
+        sens[k].handedness = "right" if d.get("left") else "left"
+        pos = [rvec(rng, -3, 3) for _ in d["pos"]]
+        sens[k].position = pos if len(pos) > 1 else pos[0]
+        new["sensors"][k] = dict(d, pixel=pix, left=not d.get("left"), pos=pos)
+    got = np.asarray(getF(field, srcs, sens, squeeze=False), dtype=float)
+    exp = run_batch(new, field, squeeze=False)
+    if got.shape != exp.shape:
+        return f"shape {got.shape} after the history, {exp.shape} on fresh twins"
+    L = got.shape[0]
+    for l in range(L):
+        sc = max(float(np.nanmax(np.abs(exp[l]))) if np.isfinite(exp[l]).any() else 0.0, excitation_scale(new["sources"][l], field))
+        if not same_vec(got[l].ravel(), exp[l].ravel(), 1e-13 * sc + 1e-300):
+            return f"source {l}: after the history {got[l].ravel()[:6].tolist()}.., fresh twins {exp[l].ravel()[:6].tolist()}.."
+    return None
 
 
 # ------------------------------------------------------------------ shrinking + signature
@@ -287,7 +410,7 @@ def point_kind(case, l, m, k, p):
     loc = _rot(clip(s["rot"], m)).inv().apply(o - np.array(clip(s["pos"], m)))
     a = s["args"]
     r = float(np.hypot(loc[0], loc[1]))
-    cl = lambda x, y: abs(x - y) <= 1e-12 * max(1.0, abs(y))   # noqa: E731
+    cl = lambda x, y: abs(x - y) <= 1e-9 * max(abs(x), abs(y), 1e-300)   # noqa: E731
     if s["cls"] == "CylinderSegment":
         r1, r2, h, p1, p2 = a["dim"]
         phi = np.degrees(np.arctan2(loc[1], loc[0]))
@@ -317,15 +440,31 @@ def rvec(rng, lo=-1.0, hi=1.0):
 
 
 def g_pol(rng):
+    if rng.random() < 0.25:        # exactly along +-x, +-y, +-z
+        v = [0.0, 0.0, 0.0]
+        v[rng.randrange(3)] = rng.choice([-1.0, 1.0, 0.5])
+        return v
     return [round(rng.uniform(-1, 1), 3) for _ in range(3)]
+
+
+SPECIAL_ROTVECS = [[np.pi, 0, 0], [0, np.pi, 0], [0, 0, np.pi], [np.pi / 2, 0, 0], [0, -np.pi / 2, 0], [0, 0, np.pi / 2],
+                   [0, 0, -np.pi / 2], [2 * np.pi / 3 / np.sqrt(3)] * 3]
+
+
+def g_rot(rng):
+    x = rng.random()
+    if x < 0.2:
+        return [0.0, 0.0, 0.0]
+    if x < 0.4:                    # 180-degree flips, quarter turns, the cube diagonal third-turn
+        return [float(v) for v in rng.choice(SPECIAL_ROTVECS)]
+    return rvec(rng, -2, 2)
 
 
 def g_path(rng, maxlen, spread=3.0, plain=False):
     n = rng.choice([1, 1, 2, 3, maxlen])
     if plain:
         return [[float(rng.randint(-2, 2)) for _ in range(3)] for _ in range(n)], [[0.0, 0.0, 0.0]] * n
-    return [rvec(rng, -spread, spread) for _ in range(n)], \
-           [[0.0, 0.0, 0.0] if rng.random() < 0.2 else rvec(rng, -2, 2) for _ in range(n)]
+    return [rvec(rng, -spread, spread) for _ in range(n)], [g_rot(rng) for _ in range(n)]
 
 
 CLASSES = ["Cuboid", "Cylinder", "CylinderSegment", "Sphere", "Tetrahedron", "TriangularMesh", "Triangle",
@@ -334,18 +473,26 @@ CLASSES = ["Cuboid", "Cylinder", "CylinderSegment", "Sphere", "Tetrahedron", "Tr
 
 def g_args(rng, cls):
     if cls == "Cuboid":
-        return {"pol": g_pol(rng), "dim": [rng.choice([0.5, 1.0, 1.5, 2.0]) for _ in range(3)]}
+        dim = [rng.choice([0.5, 1.0, 1.5, 2.0]) for _ in range(3)]
+        if rng.random() < 0.3:      # plates and bars: every axis can be the long / the thin one
+            dim[rng.randrange(3)] = rng.choice([0.05, 4.0])
+        return {"pol": g_pol(rng), "dim": dim}
     if cls == "Cylinder":
-        return {"pol": g_pol(rng), "dim": [rng.choice([0.5, 1.0, 2.0]), rng.choice([0.5, 1.0, 2.0])]}
+        return {"pol": g_pol(rng), "dim": [rng.choice([0.1, 0.5, 1.0, 2.0]), rng.choice([0.1, 0.5, 1.0, 2.0, 5.0])]}
     if cls == "CylinderSegment":
         r1 = rng.choice([0.0, 0.5, 1.0])
-        p1 = rng.choice([0.0, 30.0, -45.0])
-        return {"pol": g_pol(rng), "dim": [r1, r1 + rng.choice([0.5, 1.0]), rng.choice([0.5, 1.0, 2.0]),
-                                           p1, p1 + rng.choice([60.0, 90.0, 180.0, 360.0])]}
+        # sections with negative angles, phi1 < -180, spans near and equal to 360, thin shells
+        p1, arc = rng.choice([(0.0, 60.0), (30.0, 90.0), (-45.0, 180.0), (0.0, 360.0), (-200.0, 359.5), (-360.0, 350.0),
+                              (170.0, 190.0), (-270.0, 10.0), (-180.0, 360.0)])
+        return {"pol": g_pol(rng), "dim": [r1, r1 + rng.choice([0.5, 1.0, 0.01]), rng.choice([0.5, 1.0, 2.0, 0.02]), p1, p1 + arc]}
     if cls == "Sphere":
         return {"pol": g_pol(rng), "dia": rng.choice([0.5, 1.0, 2.0])}
     if cls == "Tetrahedron":
-        return {"pol": g_pol(rng), "verts": [[0, 0, 0], [1, 0, 0], [0, 1, 0], rvec(rng, 0.2, 1.0)]}
+        off = rvec(rng, -2, 2) if rng.random() < 0.5 else [0, 0, 0]        # body off its local origin
+        v = [[0, 0, 0], [1, 0, 0], [0, 1, 0], rvec(rng, 0.2, 1.0)]
+        if rng.random() < 0.5:       # both chiralities of the vertex order
+            v[0], v[1] = v[1], v[0]
+        return {"pol": g_pol(rng), "verts": [[round(q[i] + off[i], 4) for i in range(3)] for q in v]}
     if cls == "TriangularMesh":
         n = rng.choice([4, 5, 6, 8])
         pts = [[-0.5, -0.5, -0.5], [0.5, -0.5, -0.5], [0, 0.5, -0.5], [0, 0, 0.6]]
@@ -358,7 +505,7 @@ def g_args(rng, cls):
     if cls == "Triangle":
         return {"pol": g_pol(rng), "verts": [rvec(rng), rvec(rng), rvec(rng)]}
     if cls == "Circle":
-        return {"cur": round(rng.uniform(-2, 2), 3), "dia": rng.choice([0.5, 1.0, 2.0])}
+        return {"cur": rng.choice([round(rng.uniform(-2, 2), 3), -1.0, 0.0, 1.0]), "dia": rng.choice([0.5, 1.0, 2.0])}
     if cls == "Polyline":
         n = rng.choice([2, 2, 3, 4, 5])
         return {"cur": round(rng.uniform(-2, 2), 3), "verts": [rvec(rng) for _ in range(n)]}
@@ -451,7 +598,10 @@ def g_case(rng, max_src=4, max_sens=2, maxlen=3, one_class=False, mixed_shapes=F
         if x < 0.08 and srcs and "coll" not in srcs[-1]:
             srcs.append(dict(srcs[0], same_as=0) if "same_as" not in srcs[0] and "coll" not in srcs[0] else g_leaf(rng, maxlen, cls))
         elif x < 0.25:
-            srcs.append({"coll": [g_leaf(rng, maxlen, cls) for _ in range(rng.randint(1, 3))]})
+            kids = [g_leaf(rng, maxlen, cls) for _ in range(rng.randint(1, 3))]
+            if rng.random() < 0.4:      # nesting depth 2
+                kids.insert(rng.randint(0, len(kids)), {"coll": [g_leaf(rng, maxlen, cls) for _ in range(rng.randint(1, 2))]})
+            srcs.append({"coll": kids})
         else:
             srcs.append(g_leaf(rng, maxlen, cls))
     shape0 = rng.choice([None, (), (2,), (3,), (2, 2)])
@@ -559,7 +709,8 @@ def g_hetero_case(rng, cls):
     for a in vs:
         pos, rot = g_path(rng, 2)
         srcs.append({"cls": cls, "args": a, "pos": pos, "rot": rot})
-    pts = [inside_point(rng, s, 0) for s in srcs if rng.random() < 0.7] + [rvec(rng, -3, 3) for _ in range(rng.randint(1, 2))]
+    pts = [inside_point(rng, s, 0) for s in srcs if rng.random() < 0.7] + \
+        [rvec(rng, -3, 3) for _ in range(rng.choice([1, 2, 2, 16]))]
     if rng.random() < 0.5:
         sens = [{"pos": [[0.0, 0.0, 0.0]], "rot": [[0.0, 0.0, 0.0]], "pixel": pts if len(pts) > 1 else pts[0], "left": False}]
     else:
@@ -567,20 +718,55 @@ def g_hetero_case(rng, cls):
     return {"sources": srcs, "sensors": sens}
 
 
+def _scale_leaf(d, s):
+    a = dict(d["args"])
+    if "dim" in a:
+        a["dim"] = [x * s for x in a["dim"][:3]] + list(a["dim"][3:]) if d["cls"] == "CylinderSegment" else [x * s for x in a["dim"]]
+    if "dia" in a:
+        a["dia"] = a["dia"] * s
+    for key in ("verts", "points"):
+        if key in a:
+            a[key] = (np.array(a[key], dtype=float) * s).tolist()
+    return dict(d, args=a, pos=(np.array(d["pos"], dtype=float) * s).tolist())
+
+
+def _scale_src(d, s):
+    if "coll" in d:
+        return {"coll": [_scale_src(x, s) for x in d["coll"]]}
+    out = _scale_leaf(d, s)
+    if "same_as" in d:
+        out["same_as"] = d["same_as"]
+    return out
+
+
+def scale_case(case, s):
+    """the same scene in another length unit: every length (dimensions, vertices, positions, pixels) times s"""
+    sens = [dict(x, pos=(np.array(x["pos"], dtype=float) * s).tolist(),
+                 pixel=None if x["pixel"] is None else (np.array(x["pixel"], dtype=float) * s).tolist()) for x in case["sensors"]]
+    return dict(case, sources=[_scale_src(x, s) for x in case["sources"]], sensors=sens)
+
+
+LENGTH_SCALES = [1e-3, 1e-6, 1e3]
+
+
 SPECIAL_CLASSES = ["CylinderSegment", "Cylinder", "Cuboid", "Sphere", "Circle", "Polyline", "Triangle"]
 
 
-def g_special_case(rng, cls=None, mixed=True):
+def g_special_case(rng, cls=None, mixed=True, scale=1.0, full=False):
     """one body in a plain pose (integer position, no rotation), observers on its special sets --
     alone or (mixed) together with generic ones -- as single-pixel sensors or as one pixel array"""
     cls = cls or rng.choice(SPECIAL_CLASSES)
     leaf = g_leaf(rng, 1, cls, plain=True)
     leaf["pos"], leaf["rot"] = [leaf["pos"][0]], [[0.0, 0.0, 0.0]]
+    if scale != 1.0:
+        leaf = _scale_leaf(leaf, scale)     # the special points are computed from the scaled dimensions
     sp = [(np.array(q, dtype=float) + np.array(leaf["pos"][0])).tolist() for q in special_points(leaf)]
     rng.shuffle(sp)
-    pts = sp[:rng.randint(1, len(sp))]
-    if mixed:
-        pts += [rvec(rng, -3, 3) for _ in range(rng.choice([1, 2, 2, 12, 16]))]
+    pts = sp if full else sp[:rng.randint(1, len(sp))]
+    if full:        # every special point of the body in one call of >= 16 rows (above the size switches of cel / el3)
+        pts = pts + [[scale * x for x in rvec(rng, -3, 3)] for _ in range(16)]
+    elif mixed:
+        pts += [[scale * x for x in rvec(rng, -3, 3)] for _ in range(rng.choice([1, 2, 2, 12, 16]))]
     rng.shuffle(pts)
     if rng.random() < 0.5:
         sens = [{"pos": [[0.0, 0.0, 0.0]], "rot": [[0.0, 0.0, 0.0]], "pixel": pts, "left": False}]
@@ -588,7 +774,17 @@ def g_special_case(rng, cls=None, mixed=True):
         sens = [{"pos": [[0.0, 0.0, 0.0]], "rot": [[0.0, 0.0, 0.0]], "pixel": q, "left": False} for q in pts]
     srcs = [leaf]
     if rng.random() < 0.3:
-        srcs.append(g_leaf(rng, 1, cls, plain=True))
+        other = g_leaf(rng, 1, cls, plain=True)
+        srcs.append(_scale_leaf(other, scale) if scale != 1.0 else other)
+    return {"sources": srcs, "sensors": sens}
+
+
+def g_interleaved_case(rng):
+    """>= 6 sources of three classes in the order A B C A B C (A): the permutation that sorts them into
+    their vectorised groups is not an involution"""
+    cl = rng.sample(CLASSES, 3)
+    srcs = [g_leaf(rng, 3, cl[i % 3]) for i in range(rng.choice([6, 7]))]
+    sens = [g_sensor(rng, 3, (2,)) for _ in range(rng.randint(1, 2))]
     return {"sources": srcs, "sensors": sens}
 
 
